@@ -133,7 +133,7 @@ def rule_updated_definition(ctx: Ctx, repo: Repo, rule: str = "R-C01.2") -> None
                       construct=f"{lab}: returns {str(res_def)[:200]}")
 
 
-def rule_traced_types(ctx: Ctx, repo: Repo) -> None:
+def rule_traced_types(ctx: Ctx, repo: Repo, rule: str = "R-C01.3", receiver: bool = True) -> None:
     fi = repo.fn(ST, "FunctionDefinition.from_callable_and_traced_types")
     ctx.functions.add(fi.fq)
     ps = fi.positional_params()
@@ -148,7 +148,7 @@ def rule_traced_types(ctx: Ctx, repo: Repo) -> None:
                 return K((R("replaced", of=a[0]), R("list", items=(R("classstub_for", of=a[0], hint=hint),))))
             if d.endswith("from_callable") and not d.endswith("traced_types"):
                 return R("inst", __cls__=K("monkeytype.stubs.FunctionDefinition"), module=K("pkg.mod"), qualname=K("C.m"), kind=S("kind"), signature=S("sig0"),
-                         is_async=K(False), has_self=K(True))
+                         is_async=K(False), has_self=K(receiver))
             if d == "update_signature_args":
                 _u["args"] = tuple(st.freeze(x) for x in a)
                 return S("sig1")
@@ -164,12 +164,12 @@ def rule_traced_types(ctx: Ctx, repo: Repo) -> None:
         sc.result({ps[0]: S("class:monkeytype.stubs.FunctionDefinition"), ps[1]: func, ps[2]: R("dict", items=((K("self"), S("T:self")), (K("a"), S("T:a")), (K("b"), S("T:b")))), ps[3]: rt, ps[4]: yt, ps[5]: S("strategy")})
         lab = f"return={'absent' if rt == K(None) else 'T'} yield={'absent' if yt == K(None) else 'T'}"
         a_ = upd.get("args")
-        ok = a_ is not None and a_[0] == S("sig0") and a_[1] == R("dict", items=((K("self"), R("replaced", of=S("T:self"))), (K("a"), R("replaced", of=S("T:a"))), (K("b"), R("replaced", of=S("T:b"))))) and a_[2] == K(True) and a_[3] == S("strategy")
-        ctx.check(ok, "R-C01.3", fi.fq, "every traced argument type (after TypedDict replacement) reaches update_signature_args together with the function's own signature and receiver flag",
+        ok = a_ is not None and a_[0] == S("sig0") and a_[1] == R("dict", items=((K("self"), R("replaced", of=S("T:self"))), (K("a"), R("replaced", of=S("T:a"))), (K("b"), R("replaced", of=S("T:b"))))) and a_[2] == K(receiver) and a_[3] == S("strategy")
+        ctx.check(ok, rule, fi.fq, "every traced argument type (after TypedDict replacement) reaches update_signature_args together with the function's own signature and receiver flag",
                   construct=f"{lab}: {a_}")
         r_ = upd.get("ret")
         ok = r_ is not None and r_[0] == S("sig1") and r_[1] == (K(None) if rt == K(None) else R("replaced", of=rt)) and r_[2] == (K(None) if yt == K(None) else R("replaced", of=yt)) and r_[3] == S("strategy")
-        ctx.check(ok, "R-C01.3", fi.fq, "the traced return / yield types reach update_signature_return on the signature whose arguments were updated", construct=f"{lab}: {r_}")
+        ctx.check(ok, rule, fi.fq, "the traced return / yield types reach update_signature_return on the signature whose arguments were updated", construct=f"{lab}: {r_}")
         ok = len(made) == 1
         if ok:
             pos, kw = made[0]
@@ -180,7 +180,7 @@ def rule_traced_types(ctx: Ctx, repo: Repo) -> None:
             n_want = 3 + (rt != K(None)) + (yt != K(None))
             ok = bound.get("sig") == S("sig2") and isinstance(stubs, R) and stubs.kind == "list" and len(stubs.fields["items"]) == n_want and \
                 bound.get("module") == K("pkg.mod") and bound.get("qualname") == K("C.m") and bound.get("kind") == S("kind")
-        ctx.check(ok, "R-C01.3", fi.fq, "the definition carries the fully updated signature and every generated TypedDict class stub (arguments, return, yield)",
+        ctx.check(ok, rule, fi.fq, "the definition carries the fully updated signature and every generated TypedDict class stub (arguments, return, yield)",
                   construct=f"{lab}: {str(made)[:200]}")
 
 
